@@ -119,13 +119,14 @@ fn run_codegen(
     set_pass_observer(Some(Box::new(move |info: &PassInfo| {
         let mut l = log2.borrow_mut();
         l.infos.push(info.clone());
-        let digests: Vec<u64> = l.infos.iter().map(|i| i.digest).collect();
-        if let Some(period) = periodic_tail(&digests, 3) {
-            l.stopped = Some(format!("cycle:{}", period));
-            return true;
-        }
+        // The loop is only stopped when it is still running at the cap. Whether the state sequence is periodic at
+        // that point separates "proven cycle, never ends" from "slow drift, undecided".
         if l.infos.len() >= pass_cap {
-            l.stopped = Some("cap".into());
+            let digests: Vec<u64> = l.infos.iter().map(|i| i.digest).collect();
+            l.stopped = Some(match periodic_tail(&digests, 3) {
+                Some(period) => format!("cycle:{}", period),
+                None => "cap".into(),
+            });
             return true;
         }
         false
@@ -136,15 +137,20 @@ fn run_codegen(
     (ctx, diags, log)
 }
 
+fn tail(infos: &[PassInfo]) -> &[PassInfo] {
+    &infos[infos.len().saturating_sub(12)..]
+}
+
 fn passes_json(log: &PassLog) -> Value {
     json!({
         "n": log.infos.len(),
         "stopped": log.stopped,
-        "digests": log.infos.iter().map(|i| format!("{:016x}", i.digest)).collect::<Vec<_>>(),
-        "sym_digests": log.infos.iter().map(|i| format!("{:016x}", i.symbols_digest)).collect::<Vec<_>>(),
-        "errors": log.infos.iter().map(|i| i.num_errors).collect::<Vec<_>>(),
-        "undefined": log.infos.iter().map(|i| i.num_undefined).collect::<Vec<_>>(),
-        "bytes": log.infos.iter().map(|i| i.num_bytes).collect::<Vec<_>>(),
+        "digests": tail(&log.infos).iter().map(|i| format!("{:016x}", i.digest)).collect::<Vec<_>>(),
+        "sym_digests": tail(&log.infos).iter().map(|i| format!("{:016x}", i.symbols_digest)).collect::<Vec<_>>(),
+        "errors": tail(&log.infos).iter().map(|i| i.num_errors).collect::<Vec<_>>(),
+        "undefined": tail(&log.infos).iter().map(|i| i.num_undefined).collect::<Vec<_>>(),
+        "bytes": tail(&log.infos).iter().map(|i| i.num_bytes).collect::<Vec<_>>(),
+        "sym_changes": log.infos.windows(2).filter(|w| w[0].symbols_digest != w[1].symbols_digest).count(),
     })
 }
 
@@ -239,7 +245,7 @@ fn handle(req: &Value) -> Value {
         .unwrap_or_else(|| vec!["parse".into(), "codegen".into()]);
     let has = |op: &str| ops.iter().any(|o| o == op);
     let opts = req.get("opts").cloned().unwrap_or_else(|| json!({}));
-    let pass_cap = opts.get("pass_cap").and_then(|v| v.as_u64()).unwrap_or(500) as usize;
+    let pass_cap = opts.get("pass_cap").and_then(|v| v.as_u64()).unwrap_or(1500) as usize;
     let want = Want {
         symbols: has("symbols"),
         source_map: has("source_map"),
@@ -483,7 +489,7 @@ fn handle_batch(req: &Value) -> Value {
                 pc: base_pc.into(),
                 ..Default::default()
             };
-            let (ctx, cd, log) = run_codegen(tree.clone(), options, 100);
+            let (ctx, cd, log) = run_codegen(tree.clone(), options, 1500);
             push(&cd, Some(&tree.code_map), &mut diags);
             let mut out = Map::new();
             out.insert("d".into(), json!(diags));
